@@ -357,10 +357,10 @@ def _run_base(ctx):
     # ---------------------------------------------------------------- R03.6
     PPM = 'nbdime.prettyprint'
     mr = repo.func(PPM + ':merge_render')
+    from ..util import final_fallback
     lastif = [s for s in mr.body if isinstance(s, ast.If)][-1]
     a_, else_ = if_chain(lastif)
-    ok = bool(else_) and isinstance(else_[-1], ast.Return) and isinstance(else_[-1].value, ast.Call) and \
-        ('func', PPM + ':builtin_merge_render') in cg.resolve(else_[-1].value.func, mr)
+    ok = final_fallback(repo, cg, mr, PPM + ':builtin_merge_render')
     ctx.inst('R03.6', PPM + ':merge_render', 'final else -> builtin_merge_render', ok,
              'a renderer is always available' if ok else 'no unconditional built-in fallback: merge fails where git/diff3 are absent', lastif)
     for test, body, node in a_:
@@ -445,11 +445,8 @@ def _run_base(ctx):
                             if isinstance(v, ast.Name) and v.id == var:
                                 ok = True
                     p = repo.parent(p)
-                if name == 'merge_render_with_git' and not ok:
-                    ctx.note('unarmed: merge_render_with_git indexes %s without an emptiness guard (git merge-file output for differing inputs could not be driven to empty)' % repo.norm(n))
-                    continue
                 ctx.inst('R03.8', '%s:%s' % (PPM, name), repo.norm(n), ok, 'index into %s only after it was tested non-empty' % var if ok else
-                         '%s can be an empty list (a side whose text is empty): constant index raises IndexError and aborts the merge where the built-in renderer is used' % var, n)
+                         '%s can be an empty list (a side whose text is empty; a tool that printed nothing because it refused the input as binary): constant index raises IndexError and aborts the merge' % var, n)
     # ---------------------------------------------------------------- R03.9 field dispatch of merged similar inserts is total over the cell schema
     rir = repo.func(STR + ':resolve_strategy_inline_recurse')
     kchain = None
@@ -477,8 +474,7 @@ def _run_base(ctx):
                  'a difference in this field of two similar inserted cells is handled' if ok else
                  'two similar cells inserted on both sides that differ in %r make the merge raise ValueError("Conflict on unrecognized key")' % k, kchain)
 
-    ctx.note('unarmed: merge_render_with_git indexes merged.splitlines(True)[-1] without an emptiness guard; '
-             '_split_addrange / resolve_strategy_inline_recurse carry input-shape asserts (reachability not decided)')
+    ctx.note('unarmed: _split_addrange / resolve_strategy_inline_recurse carry input-shape asserts (reachability not decided)')
 
 
 def strategy_table(ctx):
@@ -1054,3 +1050,7 @@ def run(ctx):
     resolver_asserts_after_path_filter(ctx, 'R03.18')
     collectors_accept_none(ctx, 'R03.19')
     no_tautological_guards(ctx, 'R03.20', ['nbdime.merging.'])
+
+
+from .extra import with_extra  # noqa: E402
+run = with_extra('C03', run)
